@@ -11,7 +11,10 @@ import (
 	sdk "github.com/cosmos/cosmos-sdk/types"
 	stakingtypes "github.com/cosmos/cosmos-sdk/x/staking/types"
 
+	tmprotocrypto "github.com/cometbft/cometbft/proto/tendermint/crypto"
+
 	providertypes "github.com/cosmos/interchain-security/v7/x/ccv/provider/types"
+	ccvtypes "github.com/cosmos/interchain-security/v7/x/ccv/types"
 )
 
 // ValObs is the staking/slashing view of one validator.
@@ -163,4 +166,16 @@ func DiffStores(a, b []KV) (changed [][]byte) {
 		}
 	}
 	return changed
+}
+
+// ConsAddrOfProtoKey returns the consensus address (hex upper) of a protobuf public key.
+func ConsAddrOfProtoKey(pk *tmprotocrypto.PublicKey) (string, error) {
+	if pk == nil {
+		return "", fmt.Errorf("nil key")
+	}
+	ca, err := ccvtypes.TMCryptoPublicKeyToConsAddr(*pk)
+	if err != nil {
+		return "", err
+	}
+	return fmt.Sprintf("%X", []byte(ca)), nil
 }
